@@ -81,7 +81,7 @@ SHAPES = ("literal", "not-under-binary", "binary-under-not", "not-not", "low-pre
 def ctc_classes(ops, shapes=SHAPES):
     out = [("ctc:" + op, inject.inj_ctc_op(op)) for op in ops]
     out += [("ctc:" + s, inject.inj_ctc_shape(s, ops)) for s in shapes]
-    out += [("ctc:many", inject.inj_ctc_many(ops))]
+    out += [("ctc:many", inject.inj_ctc_many(ops)), ("ctc:more-than-40", inject.inj_many_ctcs(ops))]
     return out
 
 
@@ -94,8 +94,9 @@ def name_classes(tags, where=("any", "root", "leaf")):
 
 
 REL_COMMON = [("rel:or", inject.inj_group(1, lambda k: k)), ("rel:alt", inject.inj_group(1, 1)),
-              ("rel:nested-groups", inject.inj_nested_groups)]
-REL_CARD = [("rel:mutex", inject.inj_group(0, 1)), ("rel:card[a..b]", inject.inj_card_ab),
+              ("rel:nested-groups", inject.inj_nested_groups), ("rel:deep-chain", inject.inj_deep_chain),
+              ("rel:wide-or-alt", lambda spec, r: spec if inject.add_group(spec, r, 1, r.choice([1, 11]), 11, leaf_only=True) else None)]
+REL_CARD = [("rel:mutex", inject.inj_group(0, 1)), ("rel:card[a..b]", inject.inj_card_ab), ("rel:wide-group", inject.inj_wide_group),
             ("rel:card[n..n]", inject.inj_group(lambda k: k, lambda k: k)),
             ("rel:card[0..k]", inject.inj_group(0, lambda k: k))]
 REL_MULTI = [("rel:two-groups", inject.inj_two_groups), ("rel:two-same-groups", inject.inj_two_same_groups), ("rel:group+mandatory", inject.inj_group_plus_mandatory("alt")),
@@ -117,7 +118,9 @@ class UVL(Fmt):
         c += [("feat:type:" + t, inject.inj_ftype(t)) for t in ("Integer", "Real", "String")]
         c += [("feat:fcard:" + k, inject.inj_fcard(k)) for k in ("n..m", "n..*", "n..n", "0..1")]
         c += [(t, inject.inj_attr(t)) for t in ("attr:int", "attr:float", "attr:str", "attr:bool", "attr:none",
-                                                 "attr:list", "attr:list-with-bool", "attr:nested-list", "attr:nested-map")]
+                                                 "attr:list", "attr:list-with-bool", "attr:nested-list", "attr:nested-map",
+                                                 "attr:empty-list", "attr:float-many-digits", "attr:big-int",
+                                                 "attr:zero-false", "attr:empty-map")]
         c += [("attr:many", inject.inj_attr_many), ("attr:name-needs-quote", inject.inj_attr_name("unit cost")),
               ("attr:name-keyword", inject.inj_attr_name("mandatory"))]
         c += ctc_classes(LOG7)
@@ -159,7 +162,9 @@ class JSONF(Fmt):
         c += [("feat:abstract", inject.inj_abstract), ("feat:abstract-root", inject.inj_abstract_root)]
         c += [(t, inject.inj_attr(t)) for t in ("attr:int", "attr:float", "attr:str", "attr:bool", "attr:none",
                                                  "attr:list", "attr:list-with-bool", "attr:nested-list", "attr:nested-map",
-                                                 "attr:str-empty", "attr:str-squote", "attr:str-dquote")]
+                                                 "attr:str-empty", "attr:str-squote", "attr:str-dquote",
+                                                 "attr:empty-list", "attr:float-many-digits", "attr:big-int",
+                                                 "attr:zero-false", "attr:empty-map")]
         c += [("attr:many", inject.inj_attr_many), ("attr:name-needs-quote", inject.inj_attr_name("unit cost")),
               ("attr:name-unicode", inject.inj_attr_name("coût"))]
         c += ctc_classes(LOG8)
@@ -332,9 +337,10 @@ SPEED = {"uvl": 1, "afm": 3, "json": 4, "fide": 4, "glencoe": 4}   # relative bu
 
 def plan_for(tier, fmt="uvl"):
     k = SPEED[fmt]
+    cyc = {"uvl": (3, 6), "afm": (4, 6), "json": (6, 8), "fide": (6, 8), "glencoe": (6, 8)}[fmt]
     return [{"shard": i, "nshards": NSHARDS, "bases": (3 if tier == "quick" else 30) * k,
              "per_class": 1 if tier == "quick" else 2, "multi": (12 if tier == "quick" else 150) * k,
-             "cycles": 3 if tier == "quick" else 5,
+             "cycles": cyc[0] if tier == "quick" else cyc[1], "large": 1 if tier == "quick" else 6,
              "sweep": (2500 if tier == "quick" else 10 ** 9)} for i in range(NSHARDS)]
 
 
@@ -439,6 +445,26 @@ def run_shard_for(fmt_name, prop, desc, acc, big_sizes=(20, 60)):
                              payload, key)
             if len(acc.samples) < 2:
                 acc.sample({"base": base, "classes": [t for t, _ in classes][:12], "n_classes": len(classes)})
+        # large models: 60-150 features with several injections (size/width/depth thresholds)
+        for b in range(desc.get("large", 0)):
+            r = rand.rng(seed, prop, "large", i, b)
+            base = inject.base(r, 60, 150 if fmt_name != "uvl" else 90)
+            if judge(fmt, base, desc["cycles"], work):
+                acc.fail("large-base", "same-model", fmt.name, [], "large-base-fails", "a 60-150 feature base fails",
+                         {"fmt": fmt_name, "spec": base, "cycles": desc["cycles"], "tags": []}, S.digest(base))
+                continue
+            spec, tags = inject.apply(base, r.sample(classes, r.randint(3, 8)), r)
+            verdict = judge(fmt, spec, desc["cycles"], work)
+            if verdict:
+                # attribute by single injections on the large base
+                culprits = [t for t, fn in classes if t in tags and
+                            (lambda s1t: s1t[1] and judge(fmt, s1t[0], desc["cycles"], work))(
+                                inject.apply(base, [(t, fn)], rand.rng(seed, prop, "largeattr", i, b, t)))]
+                acc.fail("large", verdict[0], fmt.name, culprits, "*" if culprits else "interaction:" + verdict[1],
+                         f"[{'+'.join(tags)}] {verdict[1]}: {verdict[2]}",
+                         {"fmt": fmt_name, "spec": spec, "cycles": desc["cycles"], "tags": tags}, S.digest(spec))
+            else:
+                acc.held("large", S.digest(spec))
     finally:
         shutil.rmtree(work, ignore_errors=True)
 
